@@ -170,7 +170,17 @@ func read_external(rdr *tokenReader, placeholderValues *HashMap, ns EnvType) (Ma
 	}
 	args := lst.(List).Val
 	// cursor := lst.(List).Cursor
-	symbol := Symbol{Val: "new-" + args[0].(Symbol).Val}
+	if len(args) == 0 {
+		return nil, lisperror.NewLispError(errors.New("expected a type name after '«'"), lst)
+	}
+	typeName, ok := args[0].(Symbol)
+	if !ok {
+		return nil, lisperror.NewLispError(fmt.Errorf("expected a type name after '«' (found %T)", args[0]), lst)
+	}
+	if ns == nil {
+		return nil, lisperror.NewLispError(errors.New("an environment is required to read '«…»' Go constructors"), lst)
+	}
+	symbol := Symbol{Val: "new-" + typeName.Val}
 	constructor, err := ns.Get(symbol)
 	if err != nil {
 		return nil, err
